@@ -21,6 +21,8 @@ or executed.  Small pure integer helpers (weekday arithmetic, interval overlap) 
                   collapse_overlapping is (max start, min end)
   C15.remove      inner_collapse removes exactly the two collapsed elements
   C15.carry       carry thresholds on hour / minute / second are the field maxima
+  C15.alias       attribute stores in timex_range_resolver / timex_constraints_helper / timex_helpers go to objects made
+                  in the same function (constructor, copy, clone), never to a parameter or an alias of one
   C15.dictkeys    no dict literal of the package repeats a constant key (Python keeps the last entry silently)
 """
 import ast
@@ -40,9 +42,13 @@ META = {
             'last/next callers pass day_of_week-1 to the right sibling; constraint membership is half-open and '
             'dates_matching_day equals {d in [start,end): weekday(d)=day} on 392 probes; month ranges and month addition '
             'evaluated for every month (year carried on wrap); '
+            'resolver modules write only into objects made in the same function (never into a parameter or an alias '
+            'of one); no dict literal repeats a constant key; '
             'is_overlapping equals interval overlap and collapse is (max start, min end) on an exhaustive small '
             'domain; inner_collapse removes the collapsed pair; carry thresholds are field maxima.',
-    'note': 'Not decided: which days a constraint set admits beyond the above (intersection/union policy of collapse), '
+    'note': 'Not decided: whether a caller actually reuses an object the resolver wrote into (C15.alias is an ownership '
+            'discipline for the three resolver modules, not a proof of interference); which days a constraint set '
+            'admits beyond the above (intersection/union policy of collapse), '
             'termination of collapse in general, TimexCreator constants, the english/ converters, arithmetic on '
             'hour/minute that is only ever compared (TimexHelpers.add_time builds range ends beyond 24:00 on '
             'purpose), dates_matching_day for start > end (the range constructors never produce it; the shipped '
@@ -1318,6 +1324,168 @@ def rule_dictkeys(cx, chk):
     chk.control('C15.dictkeys', dup_keys(ctl) == [('M', "'months'", "'minutes'")])
 
 
+# ---------------------------------------------------------------------------------------------------
+# C15.alias : the resolver builds results on copies, never on the objects it was handed
+
+ALIAS_MODS = ('timex_range_resolver', 'timex_constraints_helper', 'timex_helpers')
+FRESH_CALLS = ('copy', 'deepcopy', 'clone')
+
+
+def root_name(e):
+    while isinstance(e, (ast.Attribute, ast.Subscript)):
+        e = e.value
+    return e.id if isinstance(e, ast.Name) else None
+
+
+def origins(cx, fn, fresh_funcs):
+    """name -> 'fresh' | 'borrowed' | 'unknown' for the locals and parameters of fn (flow-insensitive; a name with
+    both a fresh and a borrowed definition counts as borrowed)"""
+    org = {}
+    for p in params_of(fn):
+        if p not in ('self', 'cls'):
+            org[p] = {'borrowed'}
+
+    def of_expr(e):
+        if isinstance(e, ast.Call):
+            ch = chain(e.func) or ''
+            last = ch.split('.')[-1]
+            if ch in cx.classes or last in cx.classes or last in FRESH_CALLS or last in ('date', 'datetime', 'timedelta'):
+                return 'fresh'
+            if last in fresh_funcs:
+                return 'fresh'
+            if last in ('list', 'map', 'filter', 'sorted', 'reversed', 'enumerate', 'iter', 'tuple') and e.args:
+                # a container view: its elements are what the mapped function yields / what the argument holds
+                if last == 'map' and isinstance(e.args[0], ast.Lambda):
+                    inner = of_expr(e.args[0].body)
+                    return inner if inner == 'fresh' else of_elements(e.args[-1])
+                return of_elements(e.args[-1] if last in ('map', 'filter') else e.args[0])
+            return 'unknown'
+        if isinstance(e, ast.Name):
+            return 'name:' + e.id
+        if isinstance(e, (ast.Attribute, ast.Subscript)):
+            r = root_name(e)
+            return 'name:' + r if r else 'unknown'
+        if isinstance(e, ast.IfExp):
+            a, b = of_expr(e.body), of_expr(e.orelse)
+            return a if a == b else ('borrowed' if 'borrowed' in (a, b) else 'unknown')
+        return 'unknown'
+
+    def of_elements(e):
+        r = of_expr(e)
+        return r
+
+    defs = {}
+    for n in ast.walk(fn):
+        if isinstance(n, ast.Assign):
+            for t in n.targets:
+                if isinstance(t, ast.Name):
+                    defs.setdefault(t.id, []).append(of_expr(n.value))
+        elif isinstance(n, (ast.For, ast.comprehension)):
+            for t in ast.walk(n.target):
+                if isinstance(t, ast.Name):
+                    defs.setdefault(t.id, []).append(of_elements(n.iter))
+        elif isinstance(n, ast.Lambda):
+            for a in n.args.args:
+                defs.setdefault(a.arg, []).append('unknown')
+    for _ in range(4):
+        for name, ds in defs.items():
+            got = set()
+            for d in ds:
+                if d.startswith('name:'):
+                    got |= org.get(d[5:], {'unknown'}) if d[5:] != name else set()
+                else:
+                    got.add(d)
+            org[name] = (org.get(name, set()) | got) if name in params_of(fn) else got
+    out = {}
+    for name, kinds in org.items():
+        out[name] = 'borrowed' if 'borrowed' in kinds else 'fresh' if kinds == {'fresh'} else 'unknown'
+    return out
+
+
+def mutation_sites(fn):
+    """(root name, description, node) for attribute stores / deletes / setattr on named objects"""
+    out = []
+    for n in ast.walk(fn):
+        tgts = []
+        if isinstance(n, ast.Assign):
+            tgts = n.targets
+        elif isinstance(n, (ast.AugAssign, ast.AnnAssign)):
+            tgts = [n.target]
+        elif isinstance(n, ast.Delete):
+            tgts = n.targets
+        for t in tgts:
+            for x in (t.elts if isinstance(t, (ast.Tuple, ast.List)) else [t]):
+                if isinstance(x, ast.Attribute):
+                    r = root_name(x)
+                    if r:
+                        out.append((r, '%s =' % (chain(x) or ast.unparse(x)), n))
+        if isinstance(n, ast.Call) and chain(n.func) in ('setattr', 'delattr') and n.args:
+            r = root_name(n.args[0])
+            if r:
+                out.append((r, '%s(%s, ...)' % (chain(n.func), ast.unparse(n.args[0])), n))
+    return out
+
+
+def fresh_returning(cx):
+    """names of package functions all of whose returns are fresh objects (fixpoint)"""
+    fresh = set()
+    funcs = list(cx.functions())
+    for _ in range(4):
+        for m, c, fn in funcs:
+            rets = [n.value for n in ast.walk(fn) if isinstance(n, ast.Return) and n.value is not None]
+            if not rets:
+                continue
+            org = origins(cx, fn, fresh)
+            ok = True
+            for r in rets:
+                if isinstance(r, ast.Name):
+                    ok = ok and org.get(r.id) == 'fresh'
+                elif isinstance(r, ast.Call):
+                    ch = chain(r.func) or ''
+                    ok = ok and (ch in cx.classes or ch.split('.')[-1] in FRESH_CALLS or ch.split('.')[-1] in fresh
+                                 or ch == 'cls')
+                else:
+                    ok = False
+            if ok:
+                fresh.add(fn.name)
+    return fresh
+
+
+def rule_alias(cx, chk):
+    fresh = fresh_returning(cx)
+    n = 0
+    for modname in ALIAS_MODS:
+        m = cx.mods[modname]
+        for c in m.classes.values():
+            for fn in [st for st in c.node.body if isinstance(st, ast.FunctionDef)]:
+                sites = mutation_sites(fn)
+                if not sites:
+                    continue
+                org = origins(cx, fn, fresh)
+                for root, desc, node in sites:
+                    if root in ('self', 'cls'):
+                        continue
+                    kind = org.get(root, 'unknown')
+                    n += 1
+                    construct = '%s: %s' % (qual(c, fn), desc)
+                    if kind == 'fresh':
+                        chk.ok('C15.alias', m.path, construct, 'on a fresh object (%s)' % root, node.lineno)
+                    elif kind == 'borrowed':
+                        chk.bad('C15.alias', m.path, construct, 'on borrowed %s' % root,
+                                '%s writes into %s, which is a parameter of %s (or reached from one): the caller hands the '
+                                'same object to the next constraint / candidate, so later results are computed from an '
+                                'object that was already changed - build the result on copy.copy(%s) / %s.clone() / a new '
+                                'object' % (desc, root, qual(c, fn), root, root), node.lineno)
+                    else:
+                        raise AnalysisError('%s:%d %s: origin of %s not classified (neither a copy/constructor nor a '
+                                            'parameter)' % (m.rel, node.lineno, qual(c, fn), root))
+    ctl = ast.parse("def f(timex, constraint):\n    for d in dates:\n        timex.year = d.year\n"
+                    "        t = copy.copy(timex)\n        t.month = 1\n").body[0]
+    o = origins(cx, ctl, set())
+    chk.control('C15.alias', o.get('timex') == 'borrowed' and o.get('t') == 'fresh'
+                and {r for r, _, _ in mutation_sites(ctl)} == {'timex', 't'})
+
+
 def small_ranges(n=5):
     pairs = [(s, e) for s in range(n) for e in range(n) if s < e]
     return list(itertools.product(pairs, pairs))
@@ -1491,6 +1659,8 @@ def run(chk):
                              'for every month: end is the first day of the following month, year carried', floor=4)
     chk.rule('C15.dictkeys', 'no dict literal of the datatype package repeats a constant key (the later entry silently '
                              'replaces the earlier one)', floor=3, control=True)
+    chk.rule('C15.alias', 'attribute stores in the resolver modules go to objects made in the same function (constructor, '
+                          'copy, clone), never to a parameter or to something reached from one', floor=20, control=True)
     chk.rule('C15.overlap', 'is_overlapping = interval overlap, collapse_overlapping = (max start, min end), both range '
                             'types, exhaustive over a small domain', floor=6)
     chk.rule('C15.remove', 'inner_collapse removes exactly one element per removal', floor=1, control=True)
@@ -1510,4 +1680,5 @@ def run(chk):
     rule_remove(cx, chk)
     rule_carry(cx, chk)
     rule_dictkeys(cx, chk)
+    rule_alias(cx, chk)
     chk.exhaustive = True
